@@ -8,7 +8,7 @@ ID=$(echo $N | cut -c1-3)
 WT=/tmp/wt/$N; OUT=/tmp/wt/$N-out
 [ -f $OUT/patch.diff ] || { echo "no patch"; exit 2; }
 cd $WT || exit 2
-git stash -q 2>/dev/null; git checkout -q -- . ; git clean -fdq
+git checkout -q -- . ; git clean -fdq
 # the agent worktrees were created before the fix: commits; bring them to /repo's HEAD
 git checkout -q --detach $(git -C /repo rev-parse HEAD) 2>/dev/null
 cp $OUT/demo.py /tmp/wt/demo_$N.py
